@@ -12,8 +12,8 @@ rsync -a --exclude .git /repo/ "$S/clean/"; rsync -a --exclude .git /repo/ "$S/p
 suite=$( cd "$S/patched" && go test -vet=off -count=1 ./... 2>&1 | grep -cE "^(FAIL|---\s*FAIL|panic)" )
 rundemo() { # $1 = tree
   if [ -f "$B/demo_test.go" ]; then
-    dir=$(grep -oE "(imapclient|imapserver/imapmemserver|imapserver|internal/[a-z0-9]+)/?" "$B/demo_test.go" | head -1); dir=${dir%/}
-    [ -z "$dir" ] && dir=$(jq -r '.demo_dir // empty' "$B/meta.json")
+    dir=$(jq -r '.demo_dir // empty' "$B/meta.json")
+    [ -z "$dir" ] && { dir=$(grep -oE "(imapclient|imapserver/imapmemserver|imapserver|internal/[a-z0-9]+)/?" "$B/demo_test.go" | head -1); dir=${dir%/}; }
     [ -z "$dir" ] && dir=.
     cp "$B/demo_test.go" "$1/$dir/zz_seed_demo_test.go"
     race=""; grep -qi "race" "$B/meta.json" && race="-race"
@@ -32,4 +32,4 @@ rundemo "$S/patched"; dp=$?
 mkdir -p "$S/v/evidence"; cp /verif/known_findings.json "$S/v/"
 out=$(/verif/bin/imapcheck -repo "$S/patched" -verif "$S/v" -property "$PROP" 2>&1); rc=$?
 echo "RESULT $B: suite_failures=$suite demo_clean_rc=$dc demo_patched_rc=$dp check_rc=$rc"
-echo "$out" | grep -E "^  [a-zA-Z_/.0-9]+\.go:[0-9]+: rule|UNDECIDED|UNRESOLVED" | sed "s#$S/patched/##g" | cut -c1-420 | head -6
+echo "$out" | grep -E "^  ([a-zA-Z_/.0-9]+\.go:[0-9]+|-): rule|UNDECIDED|UNRESOLVED" | sed "s#$S/patched/##g" | cut -c1-420 | head -6
